@@ -579,12 +579,15 @@ type Axiom struct {
 }
 
 type GuardSpec struct {
+	WritesOnly bool
 	Field string // Type.field
 	Mutex string // field name of the mutex in the same struct
 	Pkg   string
 }
 
 type SpecFile struct {
+	InitOnly    []string
+	LockProps   []string
 	OpaqueNames []string
 	Funcs  map[string]*FuncSpec // key: pkgname.relname
 	Order  []string
@@ -602,7 +605,7 @@ var clauseKW = map[string]bool{
 	"modifies": true, "loop": true, "invariant": true, "decreases": true, "safe": true,
 	"nowrap": true, "wrapok": true, "inline": true, "trusted": true, "uses": true, "split": true, "props": true,
 	"axiom": true, "induction": true, "guarded_by": true, "pure": true, "assert": true, "timeout": true,
-	"trigger": true, "abstract": true, "opaque": true, "reveal": true, "implementations": true, "body_ensures": true, "body_returns": true,
+	"trigger": true, "abstract": true, "opaque": true, "reveal": true, "implementations": true, "body_ensures": true, "body_returns": true, "lock_property": true, "init_only": true, "write_guarded_by": true,
 }
 
 func splitName(rest string) (name, body string) {
@@ -782,12 +785,16 @@ func (sf *SpecFile) Load(path, pkg string) (err error) {
 			} else if cur != nil {
 				cur.Reveal = append(cur.Reveal, strings.Fields(rc.rest)...)
 			}
-		case "guarded_by":
+		case "init_only":
+			sf.InitOnly = append(sf.InitOnly, strings.Fields(rc.rest)...)
+		case "lock_property":
+			sf.LockProps = append(sf.LockProps, strings.Fields(rc.rest)...)
+		case "guarded_by", "write_guarded_by":
 			f := strings.Fields(rc.rest)
 			if len(f) != 2 {
 				return fmt.Errorf("%s:%d: guarded_by Type.field mutexfield", path, rc.line)
 			}
-			sf.Guards = append(sf.Guards, &GuardSpec{Field: f[0], Mutex: f[1], Pkg: pkg})
+			sf.Guards = append(sf.Guards, &GuardSpec{Field: f[0], Mutex: f[1], Pkg: pkg, WritesOnly: rc.kw == "write_guarded_by"})
 		case "lemma":
 			cur, curLoop = nil, nil
 			name, params, rest, err := parseSig(rc.rest)
